@@ -24,6 +24,7 @@ type Env struct {
 	RepoDir  string
 	VerifDir string
 	Tier     string
+	Prop     string
 	Seed     int64
 	Solver   string
 	Timeout  int
@@ -32,24 +33,26 @@ type Env struct {
 	Scratch  string // removed at exit
 	mu       sync.Mutex
 	worlds   chan *exec.World
+	sem      chan struct{}
 	allW     []*exec.World
 	L3       any
 }
 
 // IC is the context of one harness instance.
 type IC struct {
-	Env       *Env
-	W         *exec.World
-	H         *Harness
-	Name      string
-	witness   bool
-	reached   int
-	Samples   []any
-	Viol      []Violation
-	Known     []string
-	Inconcl   []string
-	Notes     []string
-	Validated int
+	Env                                    *Env
+	H                                      *Harness
+	Name                                   string
+	StrBound, MaxDepth, MaxSteps, MaxPaths int
+	mu                                     sync.Mutex
+	witness                                bool
+	reached                                int
+	Samples                                []any
+	Viol                                   []Violation
+	Known                                  []string
+	Inconcl                                []string
+	Notes                                  []string
+	Validated                              int
 }
 
 // Violation is a solver counterexample, to be replayed before it is reported.
@@ -62,7 +65,53 @@ type Violation struct {
 	Confirmed bool
 	Replay    string
 	Detail    string
-	Key       string // identity for known-findings matching
+	Key       string   // identity for known-findings matching
+	Props     []string // further properties the violation also breaks
+}
+
+// concerns reports whether a violation belongs to the given property.
+func (v *Violation) concerns(prop string) bool {
+	if v.Property == prop {
+		return true
+	}
+	for _, p := range v.Props {
+		if p == prop {
+			return true
+		}
+	}
+	return false
+}
+
+// labelProps extracts the property tags of an obligation label ("C17: ...", "C02/C20: ...").
+// Untagged labels belong to every property that runs the harness.
+func labelProps(label string) []string {
+	label = strings.TrimPrefix(label, "no runtime panic: ")
+	i := strings.Index(label, ":")
+	if i < 3 || label[0] != 'C' {
+		return nil
+	}
+	var out []string
+	for _, p := range strings.Split(label[:i], "/") {
+		if len(p) >= 3 && p[0] == 'C' && p[1] >= '0' && p[1] <= '9' {
+			out = append(out, p)
+		} else {
+			return nil
+		}
+	}
+	return out
+}
+
+func labelConcerns(label, prop string) bool {
+	ps := labelProps(label)
+	if ps == nil {
+		return true
+	}
+	for _, p := range ps {
+		if p == prop {
+			return true
+		}
+	}
+	return false
 }
 
 // Harness describes one symbolic harness.
@@ -74,6 +123,8 @@ type Harness struct {
 	Outside     []string
 	Assumptions []string
 	Instances   func(env *Env) []Instance
+	// Confirm replays a violated obligation against the real code; nil result = cannot be replayed.
+	Confirm func(ic *IC, ob *exec.Obligation) *Violation
 }
 
 type Instance struct {
@@ -96,18 +147,24 @@ type HResult struct {
 	Wall      time.Duration
 }
 
-func (env *Env) getWorld() *exec.World {
-	select {
-	case w := <-env.worlds:
-		return w
-	default:
-	}
+func (env *Env) newWorld() *exec.World {
 	w, err := env.Repo.NewWorld(env.Solver, env.Timeout)
 	if err != nil {
 		panic(err)
 	}
+	for k, v := range NewTM(env.Repo).Stubs() {
+		w.Stubs[k] = v
+	}
+	for k, v := range MockEnvStubs() {
+		w.Stubs[k] = v
+	}
 	if err := env.Repo.RunInits(w); err != nil {
 		panic(err)
+	}
+	w.Trace = os.Getenv("MOQSYM_TRACE") != ""
+	if f := os.Getenv("MOQSYM_SMTLOG"); f != "" {
+		lf, _ := os.Create(f)
+		w.S.Log = lf
 	}
 	env.mu.Lock()
 	env.allW = append(env.allW, w)
@@ -115,12 +172,26 @@ func (env *Env) getWorld() *exec.World {
 	return w
 }
 
-func (env *Env) putWorld(w *exec.World) {
-	select {
-	case env.worlds <- w:
-	default:
-		w.S.Close()
+// getWorld blocks until one of the env.Workers solver slots is free.
+func (env *Env) getWorld() *exec.World {
+	env.mu.Lock()
+	if env.sem == nil {
+		env.sem = make(chan struct{}, env.Workers)
+		env.worlds = make(chan *exec.World, env.Workers+1)
 	}
+	env.mu.Unlock()
+	env.sem <- struct{}{}
+	select {
+	case w := <-env.worlds:
+		return w
+	default:
+	}
+	return env.newWorld()
+}
+
+func (env *Env) putWorld(w *exec.World) {
+	env.worlds <- w
+	<-env.sem
 }
 
 func (env *Env) Close() {
@@ -132,12 +203,22 @@ func (env *Env) Close() {
 	}
 }
 
-// RunHarness runs all instances of a harness on the worker pool.
+// Explore explores all paths of body on the shared pool of solver workers.
+func (ic *IC) Explore(body func(ex *exec.Exec)) *exec.Stats {
+	env := ic.Env
+	get := func() *exec.World {
+		w := env.getWorld()
+		w.StrBound = ic.StrBound
+		w.MaxDepth = ic.MaxDepth
+		w.MaxSteps = ic.MaxSteps
+		return w
+	}
+	return exec.ExploreMulti(get, env.putWorld, env.Workers, ic.MaxPaths, body)
+}
+
+// RunHarness runs all instances of a harness; instances and their paths share the worker pool.
 func (env *Env) RunHarness(hh *Harness) *HResult {
 	t0 := time.Now()
-	if env.worlds == nil {
-		env.worlds = make(chan *exec.World, 64)
-	}
 	insts := hh.Instances(env)
 	res := &HResult{H: hh, Instances: len(insts)}
 	var mu sync.Mutex
@@ -150,8 +231,7 @@ func (env *Env) RunHarness(hh *Harness) *HResult {
 		go func() {
 			defer wg.Done()
 			defer func() { <-sem }()
-			w := env.getWorld()
-			ic := &IC{Env: env, W: w, H: hh, Name: in.Name}
+			ic := &IC{Env: env, H: hh, Name: in.Name}
 			var st *exec.Stats
 			func() {
 				defer func() {
@@ -163,8 +243,8 @@ func (env *Env) RunHarness(hh *Harness) *HResult {
 					}
 				}()
 				st = in.Run(ic)
+				ic.collectViolated(st)
 			}()
-			env.putWorld(w)
 			mu.Lock()
 			defer mu.Unlock()
 			res.Stats.Merge(st)
@@ -186,15 +266,91 @@ func (env *Env) RunHarness(hh *Harness) *HResult {
 	return res
 }
 
+func (ic *IC) addViol(v Violation) {
+	ic.mu.Lock()
+	defer ic.mu.Unlock()
+	for _, o := range ic.Viol {
+		if o.Key == v.Key {
+			return
+		}
+	}
+	ic.Viol = append(ic.Viol, v)
+}
+
+// collectViolated turns violated obligations into (replayed) violations.
+func (ic *IC) collectViolated(st *exec.Stats) {
+	seen := map[string]bool{}
+	for i := range st.Obligations {
+		ob := &st.Obligations[i]
+		if ob.Result != "violated" || ob.Handled {
+			continue
+		}
+		if !labelConcerns(ob.Label, ic.Env.Prop) {
+			continue
+		}
+		if seen[ob.Label] && len(seen) > 0 {
+			continue // one replay per distinct assertion and instance
+		}
+		seen[ob.Label] = true
+		var v *Violation
+		if ic.H.Confirm != nil {
+			v = ic.H.Confirm(ic, ob)
+		}
+		if v == nil {
+			v = &Violation{Harness: ic.H.ID, Instance: ic.Name, Label: ob.Label, Model: ob.Model, Key: ic.H.ID + "/" + ic.Name + "/" + ob.Label,
+				Detail: "no replay generator for this assertion"}
+		}
+		if v.Property == "" {
+			v.Property = ic.Env.Prop
+			if ps := labelProps(ob.Label); len(ps) > 0 {
+				v.Property = ps[0]
+				v.Props = ps[1:]
+			}
+		}
+		ic.addViol(*v)
+	}
+}
+
+func (ic *IC) hasViol(key string) bool {
+	ic.mu.Lock()
+	defer ic.mu.Unlock()
+	for _, o := range ic.Viol {
+		if o.Key == key {
+			return true
+		}
+	}
+	return false
+}
+
+func (ic *IC) note(s string) {
+	ic.mu.Lock()
+	defer ic.mu.Unlock()
+	ic.Notes = append(ic.Notes, s)
+}
+
+func (ic *IC) known(s string) {
+	ic.mu.Lock()
+	defer ic.mu.Unlock()
+	ic.Known = append(ic.Known, s)
+}
+
 // Witness is the vacuity guard: the path that reached the final assertion must be satisfiable.
 // It is the twin harness whose final assert(false) must come back violated.
 func (ic *IC) Witness(ex *exec.Exec, describe func(model map[string]string) any) {
+	ic.mu.Lock()
 	ic.reached++
-	if ic.witness {
+	done := ic.witness
+	ic.mu.Unlock()
+	if done {
 		return
 	}
 	m := ex.ModelOf(nil)
 	if m["$status"] != "" {
+		return
+	}
+	ic.mu.Lock()
+	defer ic.mu.Unlock()
+	if ic.witness {
 		return
 	}
 	ic.witness = true
@@ -227,6 +383,7 @@ type PropResult struct {
 	Viol    []Violation // confirmed, not known
 	Known   []string
 	Unconf  []Violation
+	Other   []string // violations of other properties seen while running shared harnesses
 }
 
 func uniq(ss []string) []string {
@@ -254,7 +411,7 @@ func truncateList(ss []string, n int) []string {
 func (env *Env) WriteEvidence(pr *PropResult) error {
 	cov := map[string]any{}
 	var states, trans int64
-	var obligations, discharged, inconcl, violated, implicit int
+	var obligations, discharged, inconcl, violated, implicit, otherObl int
 	var queries int
 	var solverT time.Duration
 	funcs := map[string]int{}
@@ -272,6 +429,10 @@ func (env *Env) WriteEvidence(pr *PropResult) error {
 		solverT += r.Stats.SolverTime
 		instances += r.Instances
 		for _, o := range r.Stats.Obligations {
+			if !labelConcerns(o.Label, pr.ID) {
+				otherObl++
+				continue
+			}
 			obligations++
 			if o.Implicit {
 				implicit++
@@ -343,6 +504,8 @@ func (env *Env) WriteEvidence(pr *PropResult) error {
 	cov["inconclusive_obligations"] = inconcl
 	cov["implicit_safety_obligations"] = implicit
 	cov["harness_instances"] = instances
+	cov["obligations_of_other_properties_skipped"] = otherObl
+	cov["violations_of_other_properties_seen"] = uniq(pr.Other)
 	cov["harnesses"] = harnesses
 	cov["functions_encoded"] = fl
 	cov["stubs_used"] = sl
